@@ -149,14 +149,15 @@ open Nima.Frag
 `Model/Cst.lean` (input: concrete-syntax trees with explicit gaps), `Model/FromCst.lean`
 (`NixSourceCode.from_cst`, `AttributeSet.from_cst`, `Binding.from_cst`, `NixList.from_cst`,
 `Parenthesis.from_cst`, `FunctionCall.from_cst`, `WithStatement.from_cst`, `Assertion.from_cst`,
-`Select.from_cst`, `parse_delimited_sequence`)
+`Select.from_cst`, `FunctionDefinition.from_cst`, `parse_delimited_sequence`)
 and `Model/Rebuild.lean` (`rebuild` of the same classes, string level and piece level) model the parse
 side and the render side for files made of attribute sets with plain single-segment names, lists,
 parenthesised expressions `( e )`, function applications `f x` / `f x y`, `with e; body`,
-`assert e; body`, selects `e.a.b` / `e.a or d` and leaf values, nested to any depth, with
+`assert e; body`, selects `e.a.b` / `e.a or d`, lambdas `x: body` and leaf values, nested to any depth, with
 arbitrary whitespace and line / one-line block comments in every gap (inside parentheses and between
 function and argument too; the three gaps of a `with` / `assert` itself — after the keyword and around
-its `;` — and the gaps around the `.` of a select hold whitespace only: `Cst.wf`). The statements below are about EVERY such tree
+its `;` —, the gaps around the `.` / `or` of a select and around the `:` of a lambda hold whitespace only:
+`Cst.wf`). The statements below are about EVERY such tree
 (structural induction), tied to the implementation by `fragment_correspondence`. -/
 
 /-- The piece list the theorems speak about is the output text, cut into pieces. -/
@@ -304,6 +305,23 @@ example : selectOrSample.flatten = "[ a.b or c (f x).y\n    or { } ]".toList := 
 example : selectOrSample.wf = true ∧ selectOrSample.noLeadingWs = true := by decide
 example : selectOrSample.codeTokens =
     ["[", "a", ".", "b", "or", "c", "(", "f", "x", ")", ".", "y", "or", "{", "}", "]"].map String.toList := by decide
+
+/-- `self : super:⏎⏎⏎  { a = x: x.b; }`: curried lambdas, two blank lines in front of the body, a lambda
+    as a binding value -/
+def lambdaSample : File :=
+  { items := .elem []
+      (.lam "self".toList [] " ".toList [] " ".toList
+        (.lam "super".toList [] [] [] "\n\n\n  ".toList
+          (.set false [] (.bind " ".toList "a".toList [] " ".toList [] " ".toList
+            (.lam "x".toList [] [] [] " ".toList (.sel (.leaf .ident "x".toList) [] [] [] ["b".toList])) [] [] .nil)
+            " ".toList))) .nil,
+    endGap := [] }
+
+example : lambdaSample.flatten = "self : super:\n\n\n  { a = x: x.b; }".toList := by decide
+example : lambdaSample.wf = true ∧ lambdaSample.noLeadingWs = true := by decide
+example : lambdaSample.codeTokens =
+    ["self", ":", "super", ":", "{", "a", "=", "x", ":", "x", ".", "b", ";", "}"].map String.toList := by decide
+example : lambdaSample.roundtrip = .ok "self: super:\n\n\n{ a = x: x.b; }".toList := by decide
 
 end Fragment
 
